@@ -7418,6 +7418,11 @@ func (l *Lowerer) lowerNegatedLiteral(lit *parser.Literal) (ir.ExpressionHandle,
 func (l *Lowerer) lowerCall(call *parser.CallExpr, target *[]ir.Statement) (ir.ExpressionHandle, error) {
 	funcName := call.Func.Name
 
+	// isStatement describes this call only: the calls inside its arguments
+	// have their results used.
+	isStatement := l.isStatement
+	l.isStatement = false
+
 	// Check if this is a built-in function (vec4, vec3, etc.)
 	if l.isBuiltinConstructor(funcName) {
 		return l.lowerBuiltinConstructor(funcName, call.Args, target)
@@ -7470,7 +7475,7 @@ func (l *Lowerer) lowerCall(call *parser.CallExpr, target *[]ir.Statement) (ir.E
 
 	// Check if this is an atomic function
 	if atomicFunc := l.getAtomicFunction(funcName); atomicFunc != nil {
-		return l.lowerAtomicCall(atomicFunc, call.Args, target)
+		return l.lowerAtomicCall(atomicFunc, call.Args, target, isStatement)
 	}
 
 	// Check if this is atomicCompareExchangeWeak (special case - 3 args)
@@ -7540,7 +7545,7 @@ func (l *Lowerer) lowerCall(call *parser.CallExpr, target *[]ir.Statement) (ir.E
 	// Enforce @must_use: if the function is marked @must_use and its result
 	// is discarded as a statement, emit an error.
 	// Matches Rust naga: FunctionMustUseUnused.
-	if l.funcMustUse[funcName] && l.isStatement {
+	if l.funcMustUse[funcName] && isStatement {
 		return 0, fmt.Errorf("result of @must_use function '%s' must be used", funcName)
 	}
 
@@ -15055,7 +15060,7 @@ func (l *Lowerer) getAtomicFunction(name string) ir.AtomicFunction {
 
 // lowerAtomicCall converts an atomic function call to IR.
 // Atomic functions have the form: atomicOp(&ptr, value) -> old_value
-func (l *Lowerer) lowerAtomicCall(atomicFunc ir.AtomicFunction, args []parser.Expr, target *[]ir.Statement) (ir.ExpressionHandle, error) {
+func (l *Lowerer) lowerAtomicCall(atomicFunc ir.AtomicFunction, args []parser.Expr, target *[]ir.Statement, isStatement bool) (ir.ExpressionHandle, error) {
 	if len(args) < 2 {
 		return 0, fmt.Errorf("atomic function requires at least 2 arguments")
 	}
@@ -15081,7 +15086,7 @@ func (l *Lowerer) lowerAtomicCall(atomicFunc ir.AtomicFunction, args []parser.Ex
 	// Matches Rust naga: SHADER_INT64_ATOMIC_MIN_MAX support means
 	// 64-bit min/max never have result handles, while 32-bit atomics always do.
 	is64BitMinMax := false
-	if l.isStatement {
+	if isStatement {
 		switch atomicFunc.(type) {
 		case ir.AtomicMin, ir.AtomicMax:
 			// Check if the pointed-to type is 64-bit
